@@ -59,6 +59,14 @@ def LookAhead (W : Nat) (scopes : List Nat) (c : Chain) : Prop :=
   ∀ pre h blk post, c = pre ++ (h, blk) :: post → ∀ k ∈ paidKeys blk, scopes.contains k.scope = true →
     k.index < nextAfter (allTxs pre) (k.scope, k.internal) + W
 
+/-- The same for the blocks at positions `≥ n` only (a recovery that resumes above the first `n` blocks). -/
+def LookAheadFrom (W : Nat) (scopes : List Nat) (n : Nat) (c : Chain) : Prop :=
+  ∀ pre h blk post, c = pre ++ (h, blk) :: post → n ≤ pre.length → ∀ k ∈ paidKeys blk, scopes.contains k.scope = true →
+    k.index < nextAfter (allTxs pre) (k.scope, k.internal) + W
+
+theorem LookAhead.from0 {W : Nat} {scopes : List Nat} {c : Chain} (h : LookAhead W scopes c) :
+    LookAheadFrom W scopes 0 c := fun pre hh blk post e _ => h pre hh blk post e
+
 /-- What a valid chain gives us.  All clauses only constrain wallet outputs. -/
 structure ChainWF (scopes : List Nat) (invalid : BranchId → List Nat) (c : Chain) : Prop where
   /-- transaction ids are unique -/
